@@ -158,6 +158,150 @@ Section LoopProofs.
     Qed.
   End SumMeasure.
 
+  (* ---- any combination of the three text rules: the total text measure decreases with every
+          iteration that fixes something, provided the no-whitespace-comment violations the linter
+          reports point at a '#' directly followed by a non-blank (what the rule reports) ---- *)
+  Section TextRules.
+    Definition is_text (r : rule) : bool :=
+      match r with RUao | RNwc | RNrr => true | _ => false end.
+
+    Definition agree_off (rows : list Z) (c0 c : str) : Prop :=
+      forall r, ~ In r rows -> get_line (lines_of c) r = get_line (lines_of c0) r.
+
+    (* files0: the files that were linted; files/fixed: the state within the pass *)
+    Definition inv (files0 files : fs) (fixed : fixed_map) : Prop :=
+      forall f,
+        match fixed_get fixed f with
+        | None => fs_get files f = fs_get files0 f
+        | Some (r, rows) =>
+            r = RNwc -> exists c0 c, fs_get files0 f = Some c0 /\ fs_get files f = Some c /\ agree_off rows c0 c
+        end.
+
+    Lemma fs_get_put_same files p c : fs_get (fs_put files p c) p = Some c.
+    Proof.
+      induction files as [|[q d] t IH]; simpl.
+      - rewrite str_eqb_refl. reflexivity.
+      - destruct (str_eqb q p) eqn:E; simpl; rewrite E; [reflexivity|exact IH].
+    Qed.
+
+    Lemma fs_get_put_other files p c g : g <> p -> fs_get (fs_put files p c) g = fs_get files g.
+    Proof.
+      intros Hne. induction files as [|[q d] t IH]; simpl.
+      - destruct (str_eqb_spec p g); [congruence|reflexivity].
+      - destruct (str_eqb_spec q p) as [->|Hqp]; simpl.
+        + destruct (str_eqb_spec p g); [congruence|reflexivity].
+        + destruct (str_eqb_spec q g); [reflexivity|exact IH].
+    Qed.
+
+    Lemma fixed_get_add_other m p r row g : g <> p -> fixed_get (fixed_add m p r row) g = fixed_get m g.
+    Proof.
+      intros Hne. induction m as [|[q [r0 rows]] t IH]; simpl.
+      - destruct (str_eqb_spec p g); [congruence|reflexivity].
+      - destruct (str_eqb_spec q p) as [->|Hqp]; simpl.
+        + destruct (str_eqb_spec p g); [congruence|reflexivity].
+        + destruct (str_eqb_spec q g); [reflexivity|exact IH].
+    Qed.
+
+    Lemma fixed_get_add_same m p r row :
+      fixed_get (fixed_add m p r row) p =
+      match fixed_get m p with
+      | Some (r0, rows) => Some (r0, rows ++ [row])
+      | None => Some (r, [row])
+      end.
+    Proof.
+      induction m as [|[q [r0 rows]] t IH]; simpl.
+      - rewrite str_eqb_refl. reflexivity.
+      - destruct (str_eqb q p) eqn:E; simpl; rewrite E; [reflexivity|exact IH].
+    Qed.
+
+    Variable files0 : fs.
+    (* what is known about the violations of this lint pass *)
+    Definition good_viol (v : violation) : Prop :=
+      is_text (v_rule v) = true /\
+      (v_rule v = RNwc -> forall c0, fs_get files0 (v_file v) = Some c0 -> nwc_reported c0 (v_loc v)).
+
+    Notation mu := (mu_sum text_measure).
+
+    Lemma pass_text_decreases vs : forall files fixed made c files' made' c',
+      Forall good_viol vs -> inv files0 files fixed ->
+      pass vs files fixed made c = POk files' made' c' ->
+      mu files' <= mu files /\ (made = false -> made' = true -> mu files' < mu files).
+    Proof.
+      induction vs as [|v vs IH]; intros files fixed made c files' made' c' Hgood Hinv H; simpl in H.
+      - injection H as <- <- _. split; [lia|]. intros -> Hm. discriminate.
+      - pose proof (Forall_inv Hgood) as [Htext Hspec]. pose proof (Forall_inv_tail Hgood) as Hgood'.
+        destruct (skip_violation fixed v) eqn:Hskip; [eapply IH; eassumption|].
+        destruct (fs_get files (v_file v)) as [content|] eqn:Hg; [|discriminate].
+        (* the state after a content fix still satisfies the invariant *)
+        assert (Hstep : forall c2,
+                   (v_rule v = RNwc -> nwc_fix content [v_loc v] = Changed c2) ->
+                   inv files0 (fs_put files (v_file v) c2)
+                       (fixed_add fixed (v_file v) (v_rule v) (l_row (v_loc v)))).
+        { intros c2 Hnwc f. destruct (str_eqb_spec f (v_file v)) as [->|Hne].
+          - rewrite fixed_get_add_same, fs_get_put_same.
+            specialize (Hinv (v_file v)). unfold skip_violation in Hskip.
+            destruct (fixed_get fixed (v_file v)) as [[r0 rows]|] eqn:Hfg.
+            + intros ->. apply orb_false_iff in Hskip. destruct Hskip as [Hr Hrows].
+              apply negb_false_iff in Hr.
+              assert (Hv : v_rule v = RNwc) by (destruct (v_rule v); try discriminate; reflexivity).
+              destruct (Hinv eq_refl) as (c0 & cc & H0 & Hc & Hag).
+              rewrite Hg in Hc. injection Hc as <-.
+              exists c0, c2. repeat split; auto.
+              intros r Hr'. rewrite (nwc_fix_other_rows _ _ _ (Hnwc Hv)).
+              * apply Hag. intros Hin. apply Hr'. apply in_or_app. left. exact Hin.
+              * intros ->. apply Hr'. apply in_or_app. right. left. reflexivity.
+            + intros Hv. rewrite Hg in Hinv.
+              exists content, c2. repeat split; auto.
+              intros r Hr'. apply (nwc_fix_other_rows _ _ _ (Hnwc Hv)).
+              intros ->. apply Hr'. left. reflexivity.
+          - rewrite fixed_get_add_other by exact Hne. rewrite fs_get_put_other by exact Hne. apply Hinv. }
+        (* the content the fix is applied to still has, at the row of the violation, the line that was linted *)
+        assert (Hrep : v_rule v = RNwc -> nwc_reported content (v_loc v)).
+        { intros Hv. specialize (Hinv (v_file v)). unfold skip_violation in Hskip.
+          destruct (fixed_get fixed (v_file v)) as [[r0 rows]|] eqn:Hfg.
+          - apply orb_false_iff in Hskip. destruct Hskip as [Hr Hrows]. apply negb_false_iff in Hr.
+            assert (Hr0 : r0 = RNwc) by (rewrite Hv in Hr; destruct r0; try discriminate; reflexivity).
+            destruct (Hinv Hr0) as (c0 & cc & H0 & Hc & Hag). rewrite Hg in Hc. injection Hc as <-.
+            apply (nwc_reported_same_line c0); [|apply Hspec; assumption].
+            apply Hag. intros Hin.
+            assert (Hex : existsb (Z.eqb (l_row (v_loc v))) rows = true).
+            { apply existsb_exists. exists (l_row (v_loc v)). split; [exact Hin|apply Z.eqb_refl]. }
+            congruence.
+          - rewrite Hg in Hinv. apply Hspec; [exact Hv|]. symmetry. exact Hinv. }
+        destruct (v_rule v) eqn:Hv; try discriminate Htext; cbn [FixLoop.apply_fix] in H.
+        + destruct (uao_fix content [v_loc v]) as [|c2] eqn:Hf; cbn [of_fix_out] in H.
+          * eapply IH; eassumption.
+          * pose proof (uao_decreases_total _ _ _ Hf) as Hd.
+            pose proof (mu_sum_put text_measure files (v_file v) content c2 Hg) as Hput.
+            destruct (IH _ _ _ _ _ _ _ Hgood' (Hstep c2 ltac:(discriminate)) H) as [Hle _].
+            split; [lia|]. intros _ _. lia.
+        + destruct (nwc_fix content [v_loc v]) as [|c2] eqn:Hf; cbn [of_fix_out] in H.
+          * eapply IH; eassumption.
+          * destruct (nwc_total _ _ _ Hf) as [_ Hd]. specialize (Hd (Hrep eq_refl)).
+            pose proof (mu_sum_put text_measure files (v_file v) content c2 Hg) as Hput.
+            destruct (IH _ _ _ _ _ _ _ Hgood' (Hstep c2 (fun _ => eq_refl)) H) as [Hle _].
+            split; [lia|]. intros _ _. lia.
+        + destruct (nrr_fix content [v_loc v]) as [|c2] eqn:Hf; cbn [of_fix_out] in H.
+          * eapply IH; eassumption.
+          * pose proof (nrr_decreases_total _ _ _ Hf) as Hd.
+            pose proof (mu_sum_put text_measure files (v_file v) content c2 Hg) as Hput.
+            destruct (IH _ _ _ _ _ _ _ Hgood' (Hstep c2 ltac:(discriminate)) H) as [Hle _].
+            split; [lia|]. intros _ _. lia.
+    Qed.
+  End TextRules.
+
+  Theorem text_rules_terminate :
+    (forall files vs, lint files = Some vs -> Forall (good_viol files) vs) ->
+    forall files c, loop (S (mu_sum text_measure files)) files c <> OutOfFuel.
+  Proof.
+    intros Hlint files c.
+    apply (loop_terminates (mu_sum text_measure)); [|lia].
+    intros f vs f' c0 c' Hl Hp.
+    assert (Hinv : inv f f []) by (intros g; reflexivity).
+    destruct (pass_text_decreases f vs f [] false c0 f' true c' (Hlint _ _ Hl) Hinv Hp) as [_ Hlt].
+    apply Hlt; reflexivity.
+  Qed.
+
   (* with only use-assignment-operator enabled, fixing terminates whatever columns the linter reports:
      every applied fix removes one lone '=' from the file *)
   Theorem uao_only_terminates :
